@@ -9,7 +9,112 @@ import (
 
 func init() {
 	replayTemplates["C01"] = replayLoggerGate
+	searchTemplates["C20"] = replayParserDiff
 }
+
+var parserDiffDone = map[string]string{}
+
+// replayParserDiff: a failed obligation of the lockstep product times.ParseDuration x time.ParseDuration is
+// followed by a differential search on the two real functions (boundary values of every unit, fractions,
+// every string of up to four characters over the duration alphabet, 200000 generated durations with a fixed
+// seed). A disagreement is a replayed counterexample; none found leaves the violation without one.
+func replayParserDiff(P *Program, dir string, r *FuncResult, o *Obligation, log *strings.Builder) string {
+	fn := r.ctx.fn
+	if !strings.HasPrefix(fn.Name(), "prod_") {
+		return ""
+	}
+	if p, done := parserDiffDone[dir]; done {
+		if p != "" {
+			o.Replayed = true
+			fmt.Fprintf(log, "replay: the differential search already reproduced a disagreement: %s\n", p)
+		}
+		return p
+	}
+	p := P.runReplay(dir, fn, o, parserDiffSrc, log)
+	parserDiffDone[dir] = p
+	return p
+}
+
+const parserDiffSrc = `package times
+
+import (
+	"math/rand"
+	"strconv"
+	"strings"
+	"testing"
+	"time"
+)
+
+func lvcDiffOne(t *testing.T, s string) {
+	if strings.Contains(s, "d") {
+		return // the day unit is the one permitted difference
+	}
+	d1, e1 := ParseDuration(s)
+	d2, e2 := time.ParseDuration(s)
+	if d1 != d2 || (e1 == nil) != (e2 == nil) {
+		t.Fatalf("REPRODUCED: times.ParseDuration(%q) = %d, %v but time.ParseDuration(%q) = %d, %v", s, int64(d1), e1, s, int64(d2), e2)
+	}
+}
+
+func TestLvcReplay(t *testing.T) {
+	units := []string{"ns", "us", "µs", "μs", "ms", "s", "m", "h"}
+	vals := []uint64{1, 1e3, 1e3, 1e3, 1e6, 1e9, 60e9, 3600e9}
+	fracs := []string{"0.1", "0.5", ".5", "1.5", "0.000000001", "0.123456789012345678901", "9223372036.854775807",
+		"2562047.788015215", "1.0000000000000001", "0.3333333333333333333", "123.456", "0.9999999999999999999",
+		".000001", "1.", "0.7", "2562047.7880152155", "0.29", "1.15", "8.41", "1e3", "00.5", "5.6000000000000001"}
+	for i, u := range units {
+		k := (uint64(1) << 63) / vals[i]
+		for _, dlt := range []int64{-2, -1, 0, 1, 2} {
+			for _, sg := range []string{"", "-", "+"} {
+				lvcDiffOne(t, sg+strconv.FormatUint(uint64(int64(k)+dlt), 10)+u)
+				lvcDiffOne(t, sg+strconv.FormatUint(uint64(int64(k)+dlt), 10)+u+"1ns")
+			}
+		}
+		for _, f := range fracs {
+			for _, sg := range []string{"", "-"} {
+				lvcDiffOne(t, sg+f+u)
+				lvcDiffOne(t, sg+"1h"+f+u)
+			}
+		}
+	}
+	for _, s := range []string{"", "0", "+0", "-0", "1", ".", "-.s", ".s", "1h2m3.5s", "1h1h", "9223372036854775807ns", "9223372036854775808ns",
+		"-9223372036854775808ns", "-9223372036854775809ns", "1.5.5s", "3000000h", "0.100000000000000000000h", "1 s", "s", "\x80s", "1\x00s", "1hh"} {
+		lvcDiffOne(t, s)
+	}
+	alpha := []string{"0", "1", "2", "9", ".", "-", "+", "h", "m", "s", "n", "u", "µ"}
+	var rec func(p string, n int)
+	rec = func(p string, n int) {
+		lvcDiffOne(t, p)
+		if n == 0 {
+			return
+		}
+		for _, a := range alpha {
+			rec(p+a, n-1)
+		}
+	}
+	rec("", 4)
+	rnd := rand.New(rand.NewSource(20))
+	for i := 0; i < 200000; i++ {
+		var b strings.Builder
+		if rnd.Intn(4) == 0 {
+			b.WriteString([]string{"-", "+"}[rnd.Intn(2)])
+		}
+		for n := 1 + rnd.Intn(3); n > 0; n-- {
+			if rnd.Intn(5) > 0 {
+				b.WriteString(strconv.FormatUint(rnd.Uint64()>>uint(rnd.Intn(64)), 10))
+			}
+			if rnd.Intn(2) == 0 {
+				b.WriteString(".")
+				for k := rnd.Intn(22); k > 0; k-- {
+					b.WriteByte(byte('0' + rnd.Intn(10)))
+				}
+			}
+			b.WriteString(units[rnd.Intn(len(units))])
+		}
+		lvcDiffOne(t, b.String())
+	}
+}
+`
 
 var admitsRe = regexp.MustCompile(`specAdmits\(([^,]+),\s*([^)]+(?:\([^)]*\))?)\)`)
 
